@@ -27,7 +27,7 @@ RULE = ('case = (served subset, supported transfer-syntax subset, list of (abstr
         'list)); distinct = same tuple; non-trivial = at least one context proposed')
 ASSUMPTIONS = ['user information item last, Maximum Length first sub-item (what conformant peers send)']
 REQUIRED = ['oracle.reply-structure', 'oracle.accept-iff', 'oracle.routing', 'oracle.titles-repeated',
-            'oracle.extra-user-items', 'oracle.duplicate-transfer-syntax-entries', 'oracle.entity-also-scu']
+            'oracle.extra-user-items', 'oracle.duplicate-transfer-syntax-entries', 'oracle.entity-also-scu', 'oracle.entity-reconfigured']
 
 CLASSES = [b'1.2.840.10008.1.1', b'1.2.840.10008.5.1.4.1.1.2', b'1.2.840.10008.5.1.4.1.2.1.1']
 STRANGER = b'1.2.840.10008.5.1.4.1.1.999'
@@ -95,7 +95,10 @@ def run_shard(spec, tier, seed):
             run_case(res, {'served': served, 'ts': ts, 'contexts': [], 'ids': [], 'probe': True})
             for c in range(len(CONTEXT_CHOICES)):
                 run_case(res, {'served': served, 'ts': ts, 'contexts': [c], 'ids': [1], 'probe': True,
-                               'scu': c % 3})
+                               'scu': c % 4})
+            for c in range(0, NDISTINCT, 7):
+                reuse_case(res, {'served': served, 'ts': ts, 'contexts': [c, (c * 3 + 1) % NDISTINCT],
+                                 'ids': [1, 3], 'reuse': True})
             # every optional user item with a stride of the single-context requests (all of them
             # in the thorough tier)
             step = 16 if spec['n'] < 2 else 1
@@ -120,12 +123,15 @@ def run_shard(spec, tier, seed):
                            'contexts': [r.randrange(len(CONTEXT_CHOICES)) for _ in range(n)], 'ids': ids,
                            'probe': r.random() < 0.5, 'titles': [r.randrange(1, 17), r.randrange(1, 17)],
                            'extra': r.sample(range(len(EXTRAS)), r.choice([0, 0, 1, 2, 4])),
-                           'scu': r.choice([0, 0, 1, 2])})
+                           'scu': r.choice([0, 0, 1, 2, 3])})
     return res
 
 
 def replay(case):
     res = Result()
+    if case.get('reuse'):
+        reuse_case(res, case)
+        return res
     if case.get('tcp'):
         from . import c09tcp
         c09tcp.run_case(res, case)
@@ -177,6 +183,58 @@ def request_object(contexts, ids, titles, extra=()):
     return tree, P.AAssociateRqPDU.decode(R.build_pdu(tree))
 
 
+def reuse_case(res, case):
+    """One entity answers the same request twice; in between the application adds the services for
+    the classes it did not serve before.  Each answer follows the configuration of its moment."""
+    from pynetdicom2 import applicationentity, asceprovider, pdu as P
+    served = [CLASSES[i] for i in range(3) if case['served'] >> i & 1]
+    later = [c for c in CLASSES if c not in served]
+    supported = [TSS[i] for i in range(4) if case['ts'] >> i & 1]
+    tree, rq = request_object(case['contexts'], case['ids'], None)
+    proposed = [(i['id'], i['abstract']['name'], [t['name'] for t in i['ts']])
+                for i in tree['items'] if i['type'] == 0x20]
+    res.evaluations += 1
+    res.distinct.add('reuse|%d|%d|%s' % (case['served'], case['ts'], case['contexts']))
+    res.count('oracle.entity-reconfigured')
+    with stubdul.stubbed() as Stub:
+        ae = applicationentity.AE('ACCEPTOR', 0, supported_ts=[t.decode() for t in supported],
+                                  bind_and_activate=False)
+        try:
+            replies = []
+            for phase, classes in enumerate((served, later)):
+                if classes:
+                    ae.add_scp(Recorder([c.decode() for c in classes]))
+                Stub.preload = [P.AAssociateRqPDU.decode(R.build_pdu(tree)), P.AReleaseRqPDU()]
+                try:
+                    asceprovider.AssociationAcceptor(stubdul.FakeRequest(), ('peer', 1), ae, max_pdu_length=16384)
+                except Exception as exc:
+                    res.violation('acceptor-raises', 'C09.accept', 'reuse phase %d: %s: %s' % (
+                        phase, type(exc).__name__, exc), case)
+                    return
+                stub = Stub.instances[-1]
+                acs = [p for p in stub.sent_pdus() if getattr(p, 'pdu_type', None) == 2]
+                replies.append(R.parse_pdu(acs[0].encode()) if len(acs) == 1 else None)
+        finally:
+            ae.server_close()
+    for phase, (ac, now_served) in enumerate(zip(replies, (served, served + later))):
+        if ac is None:
+            res.violation('no-single-associate-ac', 'C09.reply', 'reuse phase %d: no single A-ASSOCIATE-AC' % phase,
+                          case)
+            continue
+        answers = {i['id']: i for i in ac['items'] if i['type'] == 0x21}
+        for cid, abstract, tss in proposed:
+            common = [t for t in tss if t in supported]
+            should = abstract in now_served and bool(common)
+            got = cid in answers and answers[cid]['result'] == 0
+            if should != got:
+                res.violation('answer-follows-an-earlier-configuration' if phase else (
+                    'rejected-acceptable-context' if should else 'accepted-unserved-abstract-syntax'),
+                    'C09.accept-iff', 'entity serving %s, then also %s: association %d, context %d (%s, %s): '
+                    'accepted=%s, should be %s' % (
+                        [c.decode()[-8:] for c in served], [c.decode()[-8:] for c in later], phase + 1, cid,
+                        abstract.decode()[-8:], [t.decode()[-6:] for t in tss], got, should), case)
+
+
 def run_case(res, case):
     from pynetdicom2 import applicationentity, asceprovider, dimsemessages, exceptions, pdu as P
     served = [CLASSES[i] for i in range(3) if case['served'] >> i & 1]
@@ -221,6 +279,9 @@ def run_case(res, case):
                 ae.add_scp(service)
                 if scu == 2 and served:
                     ae.add_scu(_scu_service([s.decode() for s in served[:1]]))
+                if scu == 3:
+                    # ... and classes it uses as SCU only: those it does not serve
+                    ae.add_scu(_scu_service([c.decode() for c in CLASSES + [STRANGER] if c not in served]))
                 Stub.preload = [rq] + script
                 error = None
                 try:
@@ -270,8 +331,9 @@ def run_case(res, case):
     if kinds[:1] != [0x10] or kinds[-1:] != [0x50] or kinds.count(0x10) != 1 or kinds.count(0x50) != 1:
         res.violation('reply-item-structure', 'C09.reply', '%s: item types %r' % (where, kinds), case)
     res.count('oracle.titles-repeated')
-    if libmap.strip_title(ac['called']) != libmap.strip_title(tree['called']) or \
-            libmap.strip_title(ac['calling']) != libmap.strip_title(tree['calling']):
+    sent_rq = R.parse_pdu(R.build_pdu(tree))
+    # "shall contain the same value as received" (PS3.8 9.3.3): the 16-byte fields, padding included
+    if bytes(ac['called']) != bytes(sent_rq['called']) or bytes(ac['calling']) != bytes(sent_rq['calling']):
         res.violation('titles-not-repeated', 'C09.reply', '%s: reply titles %r/%r, request %r/%r' % (
             where, ac['called'], ac['calling'], tree['called'], tree['calling']), case)
     app = [i for i in ac['items'] if i['type'] == 0x10]
